@@ -2659,3 +2659,8 @@ mod tests {
         let _ = srv.join().unwrap();
     }
 }
+
+#[cfg(kani)]
+mod verif_kani {
+    include!(concat!(env!("REPE_VERIF_KANI"), "/server.rs"));
+}
